@@ -114,7 +114,46 @@ def overview_expected(w_hex, count, rate):
     return pts
 
 
+def judge_norow(ctx, res):
+    case = res.case
+    schema = case["schema"]
+    field = case["_norow"]
+    wit = {"schema": schema, "ops": case["ops"]}
+    ctx.bump_in("stored_cases_by_schema", schema)
+    if res.crash:
+        ctx.violation(f"op-did-not-complete v1 {res.crash.get('op')} {res.crash['kind']}", f"{schema}: {res.crash.get('op')} died", wit)
+        return
+    ev = res.events
+    if len(ev) < 6 or "exc" in ev[1] or "exc" in ev[2]:
+        ctx.bump("norow_cases_not_set_up")
+        return
+    if "exc" in ev[3]:
+        ctx.bump_in("norow_setter_rejected", ev[3]["exc"]["type"])
+        return
+    ctx.count()
+    ctx.bump_in("setters_on_tracks_without_performance_row", field)
+    rows = RR.table(ev[4]["ret"], "PerformanceData") or []
+    if len(rows) != 1:
+        ctx.violation(f"stored-row-missing v1 after-setter-on-track-without-row", f"{schema}: {len(rows)} performance-data rows after set_{field} on a track that had none", wit)
+        return
+    for col, kind in RR.V1_BLOBS.items():
+        b = rows[0].get(col)
+        try:
+            if not isinstance(b, (bytes, bytearray)):
+                raise ValueError("no blob (%r)" % (b,))
+            EC.DEC[kind](bytes(b))
+        except Exception as e:  # noqa: BLE001
+            ctx.violation(f"stored-blob-undecodable v1 {col} after-setter-on-track-without-row",
+                          f"{schema}: after set_{field} on a track without performance-data row, stored {col} does not decode under the independent codec: {e}", wit)
+            return
+    ctx.bump("stored_blobs_decoded", 6)
+    if "exc" in ev[5]:
+        ctx.violation("snapshot-throws v1 after-setter-on-track-without-row", f"{schema}: snapshot() throws {ev[5]['exc']['type']} after set_{field}", wit)
+
+
 def judge_stored(ctx, res):
+    if res.case.get("_norow"):
+        return judge_norow(ctx, res)
     case = res.case
     schema = case["schema"]
     fam = family(schema)
@@ -284,6 +323,41 @@ def run(ctx):
             except ValueError:
                 continue
             dec_specs.append((kind, "decode", blob.hex(), v2))
+    # the same containers as foreign writers produce them: other compression levels (stored blocks at level 0), other
+    # strategies, smaller windows, several deflate blocks (full flushes) - over payloads that span several 16 KiB buffers
+    import zlib as _z
+    import struct as _st
+    foreign = []
+    lowamp = bytes(ctx.rng.choice(b"\x00\x01\x02\x03\x05\x08") for _ in range(70000))
+    for payload, pname in ((bytes(40000), "zeros-40000"), (lowamp, "low-amplitude-70000"), (ctx.rng.randbytes(33000), "noise-33000"),
+                           (bytes(range(256)) * 130, "ramp-33280"), (lowamp[:16384], "low-amplitude-16384"), (b"abc", "tiny")):
+        for level in (0, 1, 6, 9):
+            for strat, sname in ((_z.Z_DEFAULT_STRATEGY, "default"), (_z.Z_FILTERED, "filtered"), (_z.Z_HUFFMAN_ONLY, "huffman"),
+                                 (_z.Z_RLE, "rle"), (_z.Z_FIXED, "fixed")):
+                if level != 6 and strat != _z.Z_DEFAULT_STRATEGY:
+                    continue
+                for wbits in ((15, 9) if strat == _z.Z_DEFAULT_STRATEGY and level == 6 else (15,)):
+                    co = _z.compressobj(level, _z.DEFLATED, wbits, 8, strat)
+                    stream = co.compress(payload) + co.flush()
+                    foreign.append(("zlib", "decode", (_st.pack(">i", len(payload)) + stream).hex(), (payload.hex(), "%s level=%d %s wbits=%d" % (pname, level, sname, wbits))))
+        co = _z.compressobj(6)
+        stream = b"".join(co.compress(payload[i:i + 5000]) + co.flush(_z.Z_FULL_FLUSH) for i in range(0, len(payload), 5000)) + co.flush()
+        foreign.append(("zlib", "decode", (_st.pack(">i", len(payload)) + stream).hex(), (payload.hex(), "%s full-flush every 5000" % pname)))
+
+    def judge_foreign(sp, r, crash):
+        ctx.count()
+        ctx.bump("foreign_zlib_streams")
+        tag = sp[3][1]
+        ctx.bump_in("foreign_zlib_settings", tag.split(" ", 1)[1])
+        wit = {"kind": "zlib-foreign", "what": tag, "blob_prefix": sp[2][:64]}
+        if crash:
+            ctx.violation(f"crash zlib foreign-stream {crash['kind']}", f"decoding a foreign container ({tag}) died: {crash['kind']}", wit)
+        elif "exc" in r:
+            ctx.violation(f"foreign-zlib-stream-rejected {tag.split(' ', 1)[1]}", f"the library refuses a valid container ({tag}): {r['exc']}", wit)
+        elif r.get("value") != sp[3][0]:
+            ctx.violation(f"foreign-zlib-stream-misdecoded {tag.split(' ', 1)[1]}", f"the library decodes a valid container ({tag}) to different bytes", wit)
+
+    codec_run.run_items("san", foreign, judge_foreign, batch=6)
     ctx.sample({"kind": enc_specs[0][0], "value": str(enc_specs[0][2])[:300]})
     codec_run.run_items("san", enc_specs, lambda sp, r, c: judge_lib_encode(ctx, sp, r, c), batch=60)
     codec_run.run_items("san", dec_specs, lambda sp, r, c: judge_lib_decode(ctx, sp, r, c), batch=60)
@@ -304,6 +378,21 @@ def run(ctx):
                 ops += [{"op": "create_track", "as": "t0", "snap": s}, {"op": "rawdump", "checks": False, "views": ["PerformanceData"]}]
             cases.append({"id": "s%d" % k, "schema": schema, "ops": ops, "_snap": s})
             k += 1
+            if not is_v2(schema) and i % 4 == 1:
+                # a 1.x track that has no performance-data row (a foreign writer leaves it so until the track is analysed),
+                # then one single-field performance setter: the row the library then inserts must hold six decodable blobs
+                from .. import gen_hist as GH
+                u = GH.Uniq()
+                field = ["hot_cues", "loops", "beatgrid", "sample_rate", "sample_count", "key", "average_loudness", "main_cue"][(i // 4) % 8]
+                val, _exc = GH.setter_value(ctx.rng, schema, field, u)
+                if field in ("hot_cues", "loops") and not any(x is not None for x in (val or [])):
+                    val = [GH.slot_value(ctx.rng, schema, "hot_cue" if field == "hot_cues" else "loop", u)] + [None] * 7
+                ops2 = [{"op": "create_temporary", "schema": schema}, {"op": "create_track", "as": "t0", "snap": s},
+                        {"op": "raw_exec", "sql": "DELETE FROM PerformanceData"},
+                        {"op": "set", "t": "t0", "field": field, "value": val},
+                        {"op": "rawdump", "checks": False, "views": ["PerformanceData"]}, {"op": "snapshot", "t": "t0"}]
+                cases.append({"id": "s%d" % k, "schema": schema, "ops": ops2, "_snap": s, "_norow": field})
+                k += 1
     runner.run_cases(cases, cfg="plain", on_result=lambda r: judge_stored(ctx, r))
     ctx.assumptions += ["the Python codec (pylib/engine_codec.py) is written from the layout, not from the C++; it is pinned to the "
                         "format as the pinned commit writes well-formed values", "compressed bytes are never compared",
@@ -317,6 +406,9 @@ def run(ctx):
 
 def replay(ctx, doc):
     r = doc["replay"]
+    if r.get("kind") == "zlib-foreign":
+        run(ctx)   # the foreign containers are rebuilt from the seed; the whole (short) check is the replay
+        return
     if "ops" in r:
         ops = r["ops"]
         snap = next(o["snap"] for o in ops if o["op"] == "create_track")
